@@ -9,16 +9,24 @@ from vlib import core
 PROPS = ["Props/C11.v"]
 
 
+def _short(text):
+    """long recorded output is compared through its digest (the model only passes it through)"""
+    import hashlib
+    if isinstance(text, str) and len(text) > 4000:
+        return "sha256:%s:%d" % (hashlib.sha256(text.encode("utf-8", "surrogatepass")).hexdigest(), len(text))
+    return text
+
+
 def step_request(st, r):
     """model request for one in_toto_run: the four independent recordings + what the command did"""
     if r.get("payload") is None:
         return None
-    cmd = [] if st["no_command"] else ch.command_for(st["ops"], st["out"], st["err"], st["rc"])
+    cmd = [] if st["no_command"] else ch.command_for(st["ops"], st["out"], st["err"], st["rc"], st.get("out_repeat", 1))
     # universal newlines: what a text-mode reader makes of the script's output
     tr = lambda s: s.replace("\r\n", "\n").replace("\r", "\n")
     return {"name": st["name"], "cmd": cmd, "mat_before": r["mat_before"], "mat_after": r["mat_after"],
             "prod_before": r["prod_before"], "prod_after": r["prod_after"],
-            "exec": {"rc": st["rc"], "out": tr(st["out"]), "err": tr(st["err"])},
+            "exec": {"rc": st["rc"], "out": _short(tr(st["out"] * st.get("out_repeat", 1))), "err": _short(tr(st["err"]))},
             "streams": bool(st["record_streams"]) and not r["two_phase"],
             "workdir": r["cwd"] if st["record_environment"] else None,
             "metadata_dir": None, "dsse": st["use_dsse"], "keyid": r["keyid"]}
@@ -43,7 +51,9 @@ def check_step(st, r, ans):
         bad.append("model could not evaluate the step: %r" % (ans,))
         return bad
     want = ans["link"]
-    got = r["payload"]
+    got = dict(r["payload"])
+    if isinstance(got.get("byproducts"), dict):
+        got["byproducts"] = {k: _short(v) for k, v in got["byproducts"].items()}
     if r["two_phase"]:
         # record_start/stop: materials at start, products at stop, command as passed, no byproducts recorded
         want = dict(want)
@@ -55,6 +65,49 @@ def check_step(st, r, ans):
     if ans["filename"] != r["fname"]:
         bad.append("file name: implementation %r, model %r" % (r["fname"], ans["filename"]))
     return bad
+
+
+def gpg_chain(ctx):
+    """an honest two-step chain whose functionary is a gpg key that signs with a dedicated signing SUBKEY (the link
+    file is named after the subkey, the layout authorises the master): it must verify.  -> list of problems"""
+    import shutil
+    import in_toto.runlib as rl
+    import in_toto.verifylib as vl
+    from in_toto.models.layout import Layout, Step
+    from in_toto.models.metadata import Metablock
+    from harness import fstree, vscen
+    g = hk.Gpg(ctx.work)
+    root = os.path.join(ctx.work, "gpgchain")
+    shutil.rmtree(root, ignore_errors=True)
+    os.makedirs(os.path.join(root, "proj"))
+    problems = []
+    try:
+        with fstree.in_dir(os.path.join(root, "proj")), ch.quiet():
+            open("a.txt", "w").write("1")
+            names = []
+            for i, ops in enumerate(([["create", "b.txt", "2"]], [["modify", "a.txt", "3"]])):
+                rl.in_toto_run("g%d" % i, ["."], ["."], ch.command_for(ops), gpg_keyid=hk.GPG_MASTER, gpg_home=g.home)
+                names.append("g%d" % i)
+            links = sorted(f for f in os.listdir(".") if f.endswith(".link"))
+            want = ["g0.%s.link" % hk.GPG_SIGN_SUB[:8], "g1.%s.link" % hk.GPG_SIGN_SUB[:8]]
+            if links != want:
+                problems.append("gpg functionary: link files %r, expected %r (named after the signature's key id)" % (links, want))
+            pub = g.pub(hk.GPG_MASTER)
+            steps = [Step(name="g0", pubkeys=[hk.GPG_MASTER], expected_products=[["ALLOW", "*"]]),
+                     Step(name="g1", pubkeys=[hk.GPG_MASTER],
+                          expected_materials=[["MATCH", "*", "WITH", "PRODUCTS", "FROM", "g0"], ["DISALLOW", "*"]],
+                          expected_products=[["ALLOW", "*"]])]
+            owner = hk.sslib_key("ed25519", 5)
+            md = Metablock(signed=Layout(steps=steps, inspect=[], keys={hk.GPG_MASTER: pub}, expires=vscen.EXPIRES))
+            md.create_signature(owner.signer)
+            try:
+                vl.in_toto_verify(md, {owner.keyid: owner.pub}, link_dir_path=".")
+            except Exception as e:  # noqa
+                problems.append("honest chain of a gpg functionary (signing subkey) rejected: %s: %s" % (type(e).__name__, str(e)[:160]))
+    finally:
+        g.close()
+        shutil.rmtree(root, ignore_errors=True)
+    return problems
 
 
 def run(ctx):
@@ -138,6 +191,10 @@ def run(ctx):
         if problems and viol < 8:
             viol += 1
             ctx.violation("; ".join(problems)[:400], {"chain": chain, "family": family, "impl": out, "model": a})
+    for pr in gpg_chain(ctx):
+        viol += 1
+        ctx.violation(pr, {"scenario": "harness/c11.py gpg_chain: two in_toto_run steps with gpg_keyid=master (signing subkey), "
+                                       "layout authorising the master, in_toto_verify"})
     kn, kok, kdetail = core.kernel_sample(ctx, model, limit_chars=40000, max_cases=8)
     ctx.oblige("kernel-vs-extraction-sample", kok, kdetail)
     broken = ctx.broken_obligations()
